@@ -143,6 +143,10 @@ def xsd_mutations(rng, text):
     outs = []
     outs.append(("attr-nillable", text.replace('<xs:element name="root"', '<xs:element name="root" nillable="true"', 1), True))
     outs.append(("attr-id", text.replace('<xs:element name="root"', '<xs:element name="root" id="i1"', 1), True))
+    # the same kind of attribute on a particle that also carries occurrence bounds (a different exit of parse_xml_element)
+    outs.append(("attr-nillable-with-occurs", text.replace(' minOccurs="', ' nillable="true" minOccurs="', 1), True))
+    outs.append(("attr-id-with-max-occurs", text.replace(' maxOccurs="', ' id="i2" maxOccurs="', 1), True))
+    outs.append(("attr-block-with-occurs", re.sub(r'(<xs:element [^>]*?)( m(?:in|ax)Occurs=")', r'\1 block="extension"\2', text, count=1), True))
     outs.append(("attr-mixed", text.replace("<xs:complexType>", '<xs:complexType mixed="true">', 1), True))
     outs.append(("attr-abstract", text.replace("<xs:complexType name=", '<xs:complexType abstract="false" name=', 1), True))
     outs.append(("any-attribute", text.replace("</xs:complexType>", "<xs:anyAttribute /></xs:complexType>", 1), True))
